@@ -21,7 +21,9 @@ RULE = ('(ladder) every integer in [-70000,70000] (thorough: [-2^22,2^22]) and w
         'long_int / long_uint / long_long_int: in range => reference bytes, out of range => '
         'TypeError. (machine) sequences of on() / set(True) / set(False) / encode(int, '
         'position) / encode_fixed; model = one boolean; after set(False) the full ladder '
-        'is back; the switch is restored after every case. Non-trivial = value within +-2 '
+        'is back; the switch is restored after every case; (machine-threads) the same with '
+        'every operation executed on one of 2-3 long-lived threads, one at a time - the '
+        'switch is process-wide whichever thread sets it. Non-trivial = value within +-2 '
         'of a boundary, or a toggle followed by an encode, or a nested position under '
         'legacy mode; distinct = digest of the case.')
 ASSUMPTIONS = ['the ladders are the ones written in the property text']
@@ -127,7 +129,10 @@ def ladder_bulk(tier, shard, nshards, rec):
 
         def run():
             nonlocal n, nt
+            from pbt.runner import set_logging
             for k, v in enumerate(mine):
+                if k % 1024 == 0:
+                    set_logging(k % 2048 == 0)
                 pos = POSITIONS[k % 4]
                 n += 1
                 if S.near_edge(v) or (legacy and pos == 'nested'):
@@ -239,6 +244,59 @@ def check_machine(case):
             'nontrivial': encodes_after_toggle > 0}
 
 
+def check_machine_threads(case):
+    """the same machine, but every operation runs on one of 2-3 long-lived threads (one at a
+    time): the switch is process-wide, whichever thread sets it"""
+    from pbt.sched import ThreadPoolSeq
+    pool = ThreadPoolSeq(case['threads'])
+    model = False
+    cross = 0
+    last_toggler = None
+    try:
+        pool.call(0, lambda: encode.support_deprecated_rabbitmq(False))
+        for op in case['ops']:
+            tid = op[1]
+            if op[0] == 'on':
+                pool.call(tid, lambda: encode.support_deprecated_rabbitmq())
+                model, last_toggler = True, tid
+            elif op[0] == 'set':
+                pool.call(tid, lambda: encode.support_deprecated_rabbitmq(op[2]))
+                model, last_toggler = bool(op[2]), tid
+            elif op[0] == 'encode':
+                if last_toggler is not None and last_toggler != tid:
+                    cross += 1
+                pool.call(tid, lambda: verify(op[2], op[3], model,
+                                              'thread %d' % tid))
+            elif op[0] == 'fixed':
+                pool.call(tid, lambda: verify_fixed(op[2], op[3]))
+    finally:
+        try:
+            pool.call(0, lambda: encode.support_deprecated_rabbitmq(False))
+        finally:
+            pool.close()
+            encode.support_deprecated_rabbitmq(False)
+    return {'labels': ['cross-thread-encodes=%d' % min(cross, 5)],
+            'nontrivial': cross > 0}
+
+
+def machine_thread_cases(tier):
+    ints = st.one_of(st.sampled_from([40000, 3000000000, 32768, 65535, 2**31, 200,
+                                      -200, -40000]),
+                     st.sampled_from(S.LADDER_EDGES), st.integers(-70000, 70000))
+    tid = st.integers(0, 2)
+    op = st.one_of(
+        st.tuples(st.just('on'), tid),
+        st.tuples(st.just('set'), tid, st.booleans()),
+        st.tuples(st.just('set'), tid, st.booleans()),
+        st.tuples(st.just('encode'), tid, ints, st.sampled_from(POSITIONS)),
+        st.tuples(st.just('encode'), tid, ints, st.sampled_from(POSITIONS)),
+        st.tuples(st.just('encode'), tid, ints, st.sampled_from(POSITIONS)),
+        st.tuples(st.just('fixed'), tid, st.sampled_from(sorted(FIXED)), ints),
+    ).map(list)
+    return st.fixed_dictionaries({'threads': st.integers(2, 3),
+                                  'ops': st.lists(op, min_size=3, max_size=25)})
+
+
 def machine_cases(tier):
     ints = st.one_of(st.sampled_from(S.LADDER_EDGES), st.integers(-70000, 70000),
                      st.integers(-2**64, 2**64), st.sampled_from([40000, 3000000000,
@@ -268,6 +326,11 @@ COMPONENTS = [
               nontrivial=fixed_nontrivial,
               budget={'quick': 8000, 'thorough': 160000},
               describe='fixed-width encoders, random integers'),
+    Component('machine-threads', check_machine_threads,
+              strategy=machine_thread_cases,
+              budget={'quick': 3200, 'thorough': 64000},
+              describe='the switch machine with every operation placed on one of 2-3 '
+                       'long-lived threads (cross-thread toggle / encode histories)'),
     Component('machine', check_machine, strategy=machine_cases,
               budget={'quick': 4800, 'thorough': 96000},
               describe='toggle / encode operation sequences vs one-boolean model'),
